@@ -119,6 +119,11 @@ def run_check(prop: str, tier: str, repo: Repo = None, write: bool = True, quiet
         for m in live_dead:
             out.append(f"ANALYSIS-ERROR property={prop} rule={m['rule']} construct=liveness "
                        f"reason={m['outcome']} on edit {m['edit']!r}")
+        skipped = [m for m in liveness["mutants"] + liveness["rewrites"] if m["outcome"].startswith("SKIPPED")]
+        for m in skipped:
+            out.append(f"NOTE: liveness edit {m['edit']!r} of {m['rule']} does not apply to this tree (skipped)")
+        if skipped and os.environ.get("KVERIF_STRICT_LIVENESS") == "1":
+            live_dead = live_dead + skipped     # development: on the pinned tree every designated edit must apply
 
     status = 1 if new_violations else (2 if (unknowns or fixture_failures or live_dead) else 0)
     wall = time.time() - t0
